@@ -10,13 +10,13 @@ from sim import run_scenario
 from .base import Result, V
 from . import simcommon as SC
 
-MODULES = ['TickitModel.Props.C07', 'TickitModel.Props.C07Nested', 'TickitModel.Props.C12', 'TickitModel.Props.FlatInt', 'TickitModel.Props.C07TwoLevel']
-THEOREMS = ['minv_init', 'minv_step', 'no_interrupt_lost', 'not_displaced', 'next_tick_not_after_stamp', 'served_as_root', 'tick_ends_after_roots', 'owed_cleared_only_by_update', 'interrupts_coalesce', 'interrupts_coalesce_fresh', 'interrupt_wake_le_stamp', 'interrupt_record_le_stamp', 'interrupt_keeps_earlier_callback', 'interrupt_keeps_earlier_callback_eq', 'interrupt_replaces_later_callback', 'displaced_without_record', 'interrupt_due_now', 'stamp_law', 'late_immediate', 'nested_no_interrupt_lost', 'queued_becomes_root', 'queued_means_told', 'clear_after_tick_loses', 'interrupt_served', 'interrupt_never_overtaken', 'interrupt_first_update', 'interrupt_next_tick', 'flatRunI_can_continue', 'two_level_inv', 'inner_interrupt_not_lost', 'queued_has_master_obligation', 'idle_master_ticks_sys', 'beginSys_roots_owed', 'ends_wait', 'inner_interrupt_chain', 'inner_interrupt_chain_tick', 'inner_interrupt_chain_current', 'not_passed_up_loses']
+MODULES = ['TickitModel.Props.C07', 'TickitModel.Props.C07Nested', 'TickitModel.Props.C12', 'TickitModel.Props.FlatInt', 'TickitModel.Props.C07TwoLevel', 'TickitModel.Props.C07Loop']
+THEOREMS = ['minv_init', 'minv_step', 'no_interrupt_lost', 'not_displaced', 'next_tick_not_after_stamp', 'served_as_root', 'tick_ends_after_roots', 'owed_cleared_only_by_update', 'interrupts_coalesce', 'interrupts_coalesce_fresh', 'interrupt_wake_le_stamp', 'interrupt_record_le_stamp', 'interrupt_keeps_earlier_callback', 'interrupt_keeps_earlier_callback_eq', 'interrupt_replaces_later_callback', 'displaced_without_record', 'interrupt_due_now', 'stamp_law', 'late_immediate', 'nested_no_interrupt_lost', 'queued_becomes_root', 'queued_means_told', 'clear_after_tick_loses', 'interrupt_served', 'interrupt_never_overtaken', 'interrupt_first_update', 'interrupt_next_tick', 'flatRunI_can_continue', 'two_level_inv', 'inner_interrupt_not_lost', 'queued_has_master_obligation', 'idle_master_ticks_sys', 'beginSys_roots_owed', 'ends_wait', 'inner_interrupt_chain', 'inner_interrupt_chain_tick', 'inner_interrupt_chain_current', 'not_passed_up_loses', 'loop_never_dies', 'loop_never_waits_with_work', 'loop_woken_only_for_work', 'loop_progress', 'loop_quiescent_iff', 'served_entries_deleted', 'old_loop_dies', 'new_loop_survives_f16']
 ANCHORS = ["src/tickit/core/management/schedulers/master.py", "src/tickit/core/management/schedulers/base.py",
            "src/tickit/core/management/schedulers/nested.py", "src/tickit/core/components/system_component.py",
            "src/tickit/core/components/component.py"]
 TECHNIQUE = "Lean 4 theorems over a transition system of the master's bookkeeping in which interrupts arrive at any point (invariant: nothing owed is forgotten or displaced; next tick not after the stamp; served as root; coalescing) + exhaustive sweep of the injection step on the real code and differential run of the real bookkeeping against the model"
-LEVEL_TEXT = "Theorems over the master-bookkeeping transition system (wakeups + pending-interrupt stamps; actions interrupt / answer / tick start / update begins / tick end in ANY order): an owed component is always either a not-yet-updated root of the running tick or holds a wakeup no later than its interrupt stamp - whatever callbacks its answers request (the pre-repair behaviour is shown to violate this); when idle the next tick is not after the stamp, which by the C12 theorems is due at once (no sleeping for an unrelated callback); the component is a root of that tick and a tick cannot end before its roots began their update; interrupts of one component coalesce. The nested queue (NSt) and the COMPOSITION master x nested scheduler are proved as well (Props/C07Nested, Props/C07TwoLevel): an interrupt of a device inside a system is queued and passed up in one step; in every reachable state of the composed system an owed inner component is a not-yet-begun root of the running inner tick, or it is queued AND the master owes the system an update (running root or pending wakeup not after the stamp); when the system's update begins every queued component becomes a root of the inner tick, the inner tick cannot end before their updates began, the system cannot answer and the master tick cannot end before the inner tick ended (inner_interrupt_chain*); without passing the interrupt up it is lost (not_passed_up_loses). At flat run level with interrupts in the history (Props/FlatInt: interrupt_served, interrupt_never_overtaken). PARTIAL: the real-time bound 'at most the duration of the tick in progress' is validated, not proved: ONE interrupt is injected at EVERY event-loop step from the master's first tick start to the end of a baseline run, for every device at every depth of 4 configurations with processing costs (plus simultaneous sets), on the real asyncio schedule; a monitor checks a later update exists within the bound; the real MasterScheduler's schedule_interrupt/add_wakeup/_do_tick are run against the model on random action sequences."
+LEVEL_TEXT = "Theorems over the master-bookkeeping transition system (wakeups + pending-interrupt stamps; actions interrupt / answer / tick start / update begins / tick end in ANY order): an owed component is always either a not-yet-updated root of the running tick or holds a wakeup no later than its interrupt stamp - whatever callbacks its answers request (the pre-repair behaviour is shown to violate this); when idle the next tick is not after the stamp, which by the C12 theorems is due at once (no sleeping for an unrelated callback); the component is a root of that tick and a tick cannot end before its roots began their update; interrupts of one component coalesce. The nested queue (NSt) and the COMPOSITION master x nested scheduler are proved as well (Props/C07Nested, Props/C07TwoLevel): an interrupt of a device inside a system is queued and passed up in one step; in every reachable state of the composed system an owed inner component is a not-yet-begun root of the running inner tick, or it is queued AND the master owes the system an update (running root or pending wakeup not after the stamp); when the system's update begins every queued component becomes a root of the inner tick, the inner tick cannot end before their updates began, the system cannot answer and the master tick cannot end before the inner tick ended (inner_interrupt_chain*); without passing the interrupt up it is lost (not_passed_up_loses). At flat run level with interrupts in the history (Props/FlatInt: interrupt_served, interrupt_never_overtaken). The master's RUN LOOP itself (the `new_wakeup` flag raced against the sleep; Core/MasterLoop, Props/C07Loop, tied to `_do_tick` by a trace acceptor over the add_wakeup / tick-start / tick-end events of every run of this check): for every interleaving of wakeups with the loop's own moves the repaired loop never reaches the failed assertion, never waits while a wakeup exists, is woken only for work, always has an enabled move while there is work, and deletes exactly the entries it serves; the original loop provably dies on the history of defect F16 (old_loop_dies). PARTIAL: the real-time bound 'at most the duration of the tick in progress' is validated, not proved: ONE interrupt is injected at EVERY event-loop step from the master's first tick start to the end of a baseline run, for every device at every depth of 4 configurations with processing costs (plus simultaneous sets), on the real asyncio schedule; a monitor checks a later update exists within the bound; the real MasterScheduler's schedule_interrupt/add_wakeup/_do_tick are run against the model on random action sequences."
 LEVEL_NOTE = 'Trusts: Lean kernel; hand-written bookkeeping transition system (tied by differential run); event-loop steps are those of the harness loop on the synchronous bus; calls the private _do_tick with a stub ticker.'
 ASSUMPTIONS = ['interrupts are raised once the master has begun its initial tick (earlier ones: C13)']
 
@@ -189,7 +189,7 @@ def _work(item):
     run_ = run_scenario(s2, bus="sync", stop_when=stop_when_served(n_ticks, len(stims)))
     raised = [e for e in run_["trace"].of("raise") if e.get("ok")]
     ph = monitors.phase_of(run_["trace"], monitors.master_tid(run_), raised[0]) if raised else "not-raised"
-    SC.check_run(s2, run_, drv, res, monitors_on=("interrupts", "ticker"), corr=("ticker",), case_extra={"bus": "sync"})
+    SC.check_run(s2, run_, drv, res, monitors_on=("interrupts", "ticker"), corr=("ticker", "mloop"), case_extra={"bus": "sync"})
     return {"key": key, "phase": ph, "raised": bool(raised), "violations": res.violations, "divergences": res.divergences,
             "validated": res.traces_validated, "scenario": s2 if ph == "mid-tick" else None,
             "depth": S.depth_map(scn).get(stims[0]["comp"]) if len(stims) == 1 else None}
